@@ -97,7 +97,8 @@ std::pair<Manifold, Vox> GenNode(Ctx& c, int depth) {
     r = {first ? pr.first : pr.second, Combine(a.second, b.second, first ? OpType::Intersect : OpType::Subtract)};
     ++c.ops;
   } else {  // axis-aligned plane at an integer offset
-    int axis = c.t.range(0, 2), sign = c.t.flip() ? 1 : -1, off = c.t.range(0, c.G);
+    // planes also beyond the grid on either side (origin between plane and body)
+    int axis = c.t.range(0, 2), sign = c.t.flip() ? 1 : -1, off = c.t.range(-3, c.G + 3);
     int which = c.t.range(0, 2);  // 0 Trim, 1 SplitByPlane.first, 2 .second
     d << (which == 0 ? "Trim" : which == 1 ? "PlaneSplit1" : "PlaneSplit2") << "[axis" << axis << (sign > 0 ? "+" : "-") << ",d=" << off << "](";
     auto a = GenNode(c, depth - 1);
@@ -128,7 +129,44 @@ std::pair<Manifold, Vox> GenNode(Ctx& c, int depth) {
   return r;
 }
 
+// a flattened union of more than 1000 leaves (the evaluator batches unions in
+// chunks of 1000) against the voxel model
+void BigBatch(Tape& t, Outcome& o) {
+  const int G = 10;
+  int n = t.range(1001, 1080);
+  bool chained = t.flip();
+  o.desc << "BigUnion(" << n << " boxes on a 10-grid, " << (chained ? "chained +" : "BatchBoolean") << ") first=";
+  Vox model(G);
+  std::vector<Manifold> ms;
+  for (int i = 0; i < n; ++i) {
+    gen::IBox b;
+    for (int k = 0; k < 3; ++k) { b.lo[k] = t.range(0, G - 1); b.hi[k] = b.lo[k] + t.range(1, std::min(3, G - b.lo[k])); }
+    if (i < 3) o.desc << "[" << b.lo[0] << "," << b.lo[1] << "," << b.lo[2] << ":" << b.hi[0] << "," << b.hi[1] << "," << b.hi[2] << "]";
+    ms.push_back(gen::MakeIBox(b, 0));
+    Vox v = BoxVox(G, b);
+    for (size_t q = 0; q < v.c.size(); ++q) model.c[q] |= v.c[q];
+  }
+  Manifold m;
+  if (chained) { m = ms[0]; for (int i = 1; i < n; ++i) m = m + ms[i]; }
+  else m = Manifold::BatchBoolean(ms, OpType::Add);
+  o.nontrivial = true;
+  o.cls("big-union>1000");
+  o.fingerprint = verif::fnv(t.d, t.n);
+  if (m.Status() != Manifold::Error::NoError) { o.fail("lattice:status", "big union has error status"); return; }
+  oracle::Soup s = oracle::MakeSoup(m);
+  long cells = model.count();
+  double vol = oracle::Volume(s);
+  if (std::abs(vol - cells) > 1e-9 * cells) { o.fail("lattice:volume", verif::fmt("big union: export volume %.17g, voxel model %ld cells", vol, cells)); return; }
+  for (int x = 0; x < G; x += 3)
+    for (int y = 0; y < G; y += 2)
+      for (int z = 0; z < G; ++z) {
+        double w = oracle::Winding(s, oracle::V3(x + 0.5, y + 0.5, z + 0.5));
+        if (std::lround(w) != model.at(x, y, z)) { o.fail("lattice:cell", verif::fmt("big union cell (%d,%d,%d): winding %.6g, model %d", x, y, z, w, int(model.at(x, y, z)))); return; }
+      }
+}
+
 void Body(Tape& t, Outcome& o) {
+  if (t.chance(1)) { BigBatch(t, o); return; }
   Ctx c{t, o, t.range(2, 5), t.range(2, 8)};
   o.desc << "G=" << c.G << " ";
   auto r = GenNode(c, t.range(1, 4));
